@@ -343,7 +343,12 @@ func execute(h *run.H, tr *hist.Trace, draw func(w *hist.World) ([]hist.Step, []
 		}
 		debugf("h=%d apphash plain=%x checked=%x\n", b.Height, ref.AppHash, res.AppHash)
 		st.blocks++
-		if d := sim.CompareBlockRes(ref, res); d != "" {
+		d := sim.CompareBlockRes(ref, res)
+		if d == "" {
+			// the rest of the delivered results: the events of every DeliverTx, BeginBlock and EndBlock response
+			d = compareEvents(ref, res)
+		}
+		if d != "" {
 			class := "other"
 			if finalizeMidBlock && strings.Contains(d, "minimal fee") {
 				class = "checktx-finalize-sets-fee-option"
@@ -437,6 +442,38 @@ func drawCheck(rt *rapid.T, u *hist.U, g *hist.Gen, own []txgen.Tx, at string, k
 		}
 	}
 	return tx
+}
+
+func renderEvents(evs []abci.Event) string {
+	var sb strings.Builder
+	for _, e := range evs {
+		sb.WriteString(e.Type)
+		sb.WriteString("{")
+		for _, a := range e.Attributes {
+			fmt.Fprintf(&sb, "%q=%q;", a.Key, a.Value)
+		}
+		sb.WriteString("}")
+	}
+	return sb.String()
+}
+
+// compareEvents compares the events of two executions of one block (empty string: equal).
+func compareEvents(a, b *sim.BlockRes) string {
+	if x, y := renderEvents(a.Begin.Events), renderEvents(b.Begin.Events); x != y {
+		return fmt.Sprintf("h=%d: BeginBlock events differ: %.300s vs %.300s", a.Height, x, y)
+	}
+	for i := range a.Deliver {
+		if i >= len(b.Deliver) {
+			break
+		}
+		if x, y := renderEvents(a.Deliver[i].Events), renderEvents(b.Deliver[i].Events); x != y {
+			return fmt.Sprintf("h=%d tx#%d: DeliverTx events differ: %.300s vs %.300s", a.Height, i, x, y)
+		}
+	}
+	if x, y := renderEvents(a.End.Events), renderEvents(b.End.Events); x != y {
+		return fmt.Sprintf("h=%d: EndBlock events differ: %.300s vs %.300s", a.Height, x, y)
+	}
+	return ""
 }
 
 func govID(s string) governance.ProposalID { return governance.ProposalID(s) }
